@@ -152,6 +152,8 @@ __CPROVER_decreases(size - x)
 PUSH = Rule('ret.push_back(', 'vstr_push_back(ret, ', count='+')
 # (reserve() is a capacity hint without observable effect: the string model has its capacity from the precondition)
 RETSTR = [Rule(r'\bstring ret;', '', count=1, regex=True), Rule(r'\breturn ret;', 'return;', count=1, regex=True),
+          # an early `return string();` / `return "";` / `return {};`: the out-parameter is the empty string at entry (precondition)
+          Rule(r'\breturn (?:(?:std::)?string\(\)|""|\{\});', '{ C11_RET_EMPTY(ret); return; }', count=None, regex=True),
           Rule(r'\bret\.reserve\([^;]*\);', '', count=None, regex=True)]
 
 # where the blocks are cut (tolerant of edits inside the parentheses: an edited header reaches the verifier)
